@@ -63,7 +63,10 @@ fn compare(acc: &mut Acc, reg: &Registry, s: &dyn Subject, base: &Ov, base_run: 
 }
 
 pub fn run(ctx: &Ctx, reg: &Registry) -> i32 {
-    let n_cases: u64 = ctx.tier.pick(300, 4000);
+    let n_cases: u64 = ctx.tier.pick(200, 2500);
+    // cap on single-object permutations per payload (objects are visited in a rotating order so that every
+    // depth gets its share); objects with <= 5 members are always permuted completely once started
+    let per_case_cap: usize = ctx.tier.pick(240, 1200);
     let n_joint: u64 = ctx.tier.pick(4, 16);
     let acc = ctx.par(|shard, n| {
         let mut acc = Acc::new();
@@ -88,7 +91,13 @@ pub fn run(ctx: &Ctx, reg: &Registry) -> i32 {
                 }
                 let mut rng = Rng::derive(ctx.seed, vcore::evidence::hash64(s.name()), 150_000 + i);
                 // every permutation of every object with <= 5 members, one object at a time
-                for path in &objects {
+                let mut done = 0usize;
+                for oi in 0..objects.len() {
+                    let path = &objects[(oi + i as usize) % objects.len()];
+                    if done >= per_case_cap {
+                        acc.count("objects_left_out_by_the_per_payload_cap");
+                        continue;
+                    }
                     let Some(Ov::Map(m)) = resolve(&case.payload, path) else { continue };
                     let k = m.len();
                     let perms: Vec<Vec<usize>> = if k <= 5 {
@@ -103,6 +112,7 @@ pub fn run(ctx: &Ctx, reg: &Registry) -> i32 {
                             })
                             .collect()
                     };
+                    done += perms.len();
                     for perm in perms.iter().skip(1) {
                         let permuted = edit_at(&case.payload, path, &|nd| if let Ov::Map(m) = nd { Ov::Map(perm.iter().map(|&j| m[j].clone()).collect()) } else { nd.clone() });
                         compare(&mut acc, reg, s, &case.payload, &base_run, &permuted, &format!("{perm:?} at {:?}", vcore::render_path(path)));
